@@ -748,6 +748,8 @@ def lean_gate(rep, prop, scratch, what_trusted):
         'theorems': lb['axioms'],
     })
     rep.lean = lb
+    if lb['problems']:
+        rep.coverage['lean_problems'] = lb['problems'][:20]     # evidence also when a stage reports the failing input
     if lb.get('driver_failed'):
         raise CheckError('; '.join(lb['problems']))
     return lb
